@@ -12,6 +12,8 @@ import ALV.Lemmas.C17Paused
 import ALV.Lemmas.C17Wait
 import ALV.Lemmas.C17FineLive
 import ALV.Lemmas.C17Rec
+import ALV.Lemmas.C17Spec
+import ALV.Lemmas.C17Mix
 import ALV.Common.Audit
 
 namespace ALV.Props.C17
@@ -92,6 +94,53 @@ example : let s := (runSched ⟨true, true, [true]⟩ (init [.play [101, 102, 10
       (mkSched [0,0,0,0,0,0,0,0,0, 1,1,1,1,1,1,1,1,1, 0,0,0,0,0])).1
     (s.log = [.playOk 0, .closeOk [false] 0] ∧ s.players.map (·.written) = [[[101, 102]]] ∧
       s.players.map (·.fail) = [true] ∧ allDone s = true ∧ closedAfter s = true) := by decide
+
+/-- **C17.1e chunks_are_the_spec** — the chunk sequence in the words of the property, as the SPEC
+function the tie compares the device's bytes with (`chunksSpec` = `groups cs (padded cs audio)`):
+`chunks(audio)` IS `chunksSpec`; `chunksSpec` consists of chunks of exactly `cs` samples whose
+concatenation is `padded` = the audio followed by `padLen` (< `cs`) zeros; and it is the ONLY such
+sequence — any list of chunks of `cs` samples with that concatenation is `chunksSpec`: nothing lost,
+duplicated or reordered. -/
+theorem chunks_are_the_spec (cs : Nat) (hs : 0 < cs) (audio : List Int) :
+    chunksOf cs audio = chunksSpec cs audio ∧
+    (chunksSpec cs audio).flatten = padded cs audio ∧
+    padded cs audio = audio ++ List.replicate (padLen cs audio.length) 0 ∧
+    (∀ c ∈ chunksSpec cs audio, c.length = cs) ∧
+    (∀ l : List (List Int), (∀ c ∈ l, c.length = cs) → l.flatten = padded cs audio →
+      l = chunksSpec cs audio) := by
+  refine ⟨chunksOf_eq_chunksSpec cs hs audio, groups_flatten cs hs _ _ rfl, rfl,
+    groups_len cs hs _ _ rfl (padded_len_mod cs hs audio), fun l hl hf => ?_⟩
+  unfold chunksSpec
+  rw [← hf, groups_unique cs hs l hl]
+
+/-- **C17.1f delivered_is_spec** — the delivery clause as the executable predicate `deliveredOK` of
+the specification (`Spec/C17.lean`): in EVERY reachable state, for every player, what the device
+stream has received is a prefix of `chunksSpec cs audio`, and all of it once the player has left
+its loop un-stopped and its iterable did not raise. -/
+theorem delivered_is_spec {cfg : Cfg} {script : List Cmd} {s : State} (h : Reach cfg script s)
+    (k : Nat) (p : Player) (hp : s.players[k]? = some p) (hcs : 0 < p.cs) :
+    p.written <+: chunksSpec p.cs p.audio ∧
+    (afterLoop p.pc = true → p.halting = false → p.fail = false →
+      p.written = chunksSpec p.cs p.audio) ∧
+    deliveredOK p.cs p.audio p.written (afterLoop p.pc && !p.halting && !p.fail) = true := by
+  obtain ⟨h1, _, h3⟩ := delivered_prefix h k p hp
+  rw [chunksOf_eq_chunksSpec p.cs hcs] at h1 h3
+  refine ⟨h1, h3, ?_⟩
+  unfold deliveredOK
+  simp only [Bool.and_eq_true, Bool.or_eq_true, Bool.not_eq_true', beq_iff_eq]
+  refine ⟨(List.prefix_iff_eq_take.mp h1), ?_⟩
+  cases ha : afterLoop p.pc <;> cases hh : p.halting <;> cases hf : p.fail <;> simp
+  exact h3 ha hh hf
+
+/-- non-vacuity: three samples in chunks of two; the spec value, and `deliveredOK` on a partial
+and on the complete delivery (and its refusal of a reordered / duplicated / short one) -/
+example : chunksSpec 2 [1, 2, 3] = [[1, 2], [3, 0]] ∧ padded 2 [1, 2, 3] = [1, 2, 3, 0] ∧
+    deliveredOK 2 [1, 2, 3] [[1, 2]] false = true ∧ deliveredOK 2 [1, 2, 3] [[1, 2], [3, 0]] true = true ∧
+    deliveredOK 2 [1, 2, 3] [[1, 2]] true = false ∧ deliveredOK 2 [1, 2, 3] [[3, 0]] false = false ∧
+    deliveredOK 2 [1, 2, 3] [[1, 2], [1, 2]] false = false := by
+  have e : chunksSpec 2 [1, 2, 3] = [[1, 2], [3, 0]] := by
+    rw [← chunksOf_eq_chunksSpec 2 (by decide)]; decide
+  refine ⟨e, by decide, ?_, ?_, ?_, ?_, ?_⟩ <;> simp [deliveredOK, e]
 
 /-- **C17.2 terminate_once** — the backend is terminated at most once, whatever the schedule
 and however often `close` is called. -/
@@ -565,6 +614,59 @@ example : (fineRun exFc exScript [0,0,0,0,0,0,0,0,0,0,0,0,0,0, 1,1, 2,2, 1]).asm
       [[103], [202]] ∧
     pulling (fineRun exFc exScript [0,0,0,0,0,0,0,0,0,0,0,0,0,0, 1,1, 2,2, 1]) 1 = true := by decide
 
+/-- **C17.15b pull_moves_one_sample** — what the tie labels `it<k>.pull` (`pulling`): the player is
+at `write` with a chunk that is not complete; its step is always enabled and moves exactly ONE sample
+from the unpulled rest of ITS OWN iterable to the end of ITS OWN chunk buffer, changing nothing else
+(no device stream, no other player's buffer) — or, when nothing is left and the iterable raises, it
+is the exception step (to the epilogue with the repaired `run`, to the thread's death without). -/
+theorem pull_moves_one_sample (fc : FCfg) (fs fs' : FState) (i : Nat)
+    (hpull : pulling fs i = true) (h : stepF fc fs (.player i) = some fs') :
+    enabledF fc fs (.player i) = true ∧
+    ∃ p a, fs.base.players[i]? = some p ∧ fs.asm[i]? = some a ∧ p.pc = .write ∧
+      a.buf.length ≠ p.cs ∧
+      ((∃ x r, a.rest = x :: r ∧ fs'.base = fs.base ∧
+          fs'.asm = fs.asm.set i { a with rest := r, buf := a.buf ++ [x] }) ∨
+       (a.rest = [] ∧ a.fail = true ∧ fs'.asm = fs.asm ∧
+          fs'.base = setP fs.base i { p with pc := if fc.dieFixed then .finAcq else .done })) := by
+  refine ⟨pull_enabled fc fs i hpull, ?_⟩
+  have hpull' := hpull
+  unfold pulling at hpull'
+  cases hp : fs.base.players[i]? with
+  | none => rw [hp] at hpull'; simp at hpull'
+  | some p =>
+    cases ha : fs.asm[i]? with
+    | none => rw [hp, ha] at hpull'; simp at hpull'
+    | some a =>
+      rw [hp, ha] at hpull'
+      simp only [Bool.and_eq_true, beq_iff_eq, Bool.not_eq_true'] at hpull'
+      refine ⟨p, a, rfl, rfl, hpull'.1, ?_, pull_step fc fs fs' i p a hp ha hpull h⟩
+      intro hl
+      have := hpull'.2
+      unfold chunkReady at this
+      simp [hl] at this
+
+/-- non-vacuity: the pull of `202` by player 1 while player 0's buffer holds `[101, 102]` -/
+example : let fs := fineRun exFc exScript [0,0,0,0,0,0,0,0,0,0,0,0,0,0, 1,1, 2,2, 1]
+    (pulling fs 1 = true ∧ (stepF exFc fs (.player 1)).map (fun f => f.asm.map (·.buf)) =
+      some [[101, 102], [201, 202]]) := by decide
+
+/-- **C17.16e fine_delivered_is_spec** — the fine assembly against the SPEC function: in every
+reachable state of the fine system (pre-emption between any two pulls, any number of players) a
+device stream holds a prefix of `chunksSpec cs audio` — groups of exactly `cs` frames of the audio
+followed by the zero padding — and all of it once its player left the loop un-stopped. -/
+theorem fine_delivered_is_spec {fc : FCfg} {script : List Cmd} {fs : FState} (hsd : Sound fc)
+    (hpos : PosCs script) (h : ReachF fc script fs) (k : Nat) (p : Player)
+    (hp : fs.base.players[k]? = some p) :
+    p.written <+: chunksSpec p.cs p.audio ∧
+    (afterLoop p.pc = true → p.halting = false → p.fail = false →
+      p.written = chunksSpec p.cs p.audio) ∧
+    deliveredOK p.cs p.audio p.written (afterLoop p.pc && !p.halting && !p.fail) = true := by
+  have hr := (sim_reach hsd hpos h).1
+  obtain ⟨hl, hall⟩ := (sim_reach hsd hpos h).2
+  have hk : k < fs.asm.length := by have := lt_of_getElem? hp; omega
+  have hcs : 0 < p.cs := (hall k p fs.asm[k] hp (List.getElem?_eq_getElem hk)).pos
+  exact delivered_is_spec hr k p hp hcs
+
 /-- **C17.16 fine_refines** — refinement: when no played iterable raises (and chunk sizes are
 positive), the coarse state carried by ANY reachable state of the fine system is reachable in the
 coarse system with the same script and configuration: a fine step is a coarse step or a stutter
@@ -881,6 +983,33 @@ theorem rec_closed_after_close (cmds : List RCmd) (hc : RCmd.close ∈ cmds) :
   obtain ⟨_, h2, h3⟩ := inv.c.recs i r hr
   exact ⟨hd, by rw [h2, hd]; rfl, (h3 hd).1, (h3 hd).2⟩
 
+open ALV.C17Rec in
+/-- **C17.23d rec_remove_by_identity** — the repaired `recording_finished` (c60d4c5, finding D26)
+is `self._recordings = [r for r in self._recordings if r is not recst]`; the model removes with
+`List.erase` on stream indices.  In every state of every history the two agree (a stream is listed at
+most once), and removing a stream never disturbs another one: `take` on stream `i` leaves exactly
+the streams `≠ i` that were listed, in their order. -/
+theorem rec_remove_by_identity (cmds : List RCmd) (i n : Nat) :
+    let s := run C17Rec.init cmds
+    s.recordings.erase i = s.recordings.filter (· != i) ∧
+    ((takeOn s i n).2.recordings = s.recordings ∨
+     (takeOn s i n).2.recordings = s.recordings.filter (· != i)) := by
+  have inv := run_si cmds _ si_init
+  have e := List.Nodup.erase_eq_filter inv.c.nodup i
+  refine ⟨e, ?_⟩
+  unfold takeOn
+  split
+  · exact Or.inl rfl
+  · simp only
+    split
+    · exact Or.inr e
+    · exact Or.inl rfl
+
+/-- non-vacuity (D26's witness): two active streams, the one that is not the oldest finishes first -/
+example : (C17Rec.run C17Rec.init [.record 1, .record 1, .stop 1, .take 1 1]).recordings = [0] ∧
+    (C17Rec.run C17Rec.init [.record 1, .record 1, .close]).recordings = [] ∧
+    (C17Rec.run C17Rec.init [.record 1, .record 1, .close]).terminated = 1 := by decide
+
 /-- non-vacuity: two streams (chunks of 3 and of 2), one read into the middle of its second chunk
 and stopped, the other never stopped; `close` drains both, the last one first -/
 example : let s := C17Rec.run C17Rec.init [.record 3, .take 0 4, .record 2, .take 1 1, .stop 0, .take 0 1, .close, .take 1 5, .record 2]
@@ -889,6 +1018,170 @@ example : let s := C17Rec.run C17Rec.init [.record 3, .take 0 4, .record 2, .tak
       s.recs.map (·.out) = [[1000, 1001, 1002, 1003, 1004, 1005], [2000, 2001]] ∧
       s.recs.map (·.reads) = [2, 1] ∧ s.recs.map (·.closes) = [1, 1] ∧ s.recordings = [] ∧
       s.terminated = 1) := by decide
+
+/-! ### recordings, a failing `pa.open` and a raising `terminate()` in the SAME history as the players
+
+`ALV.Model.C17Mix`: a layer over the coarse system.  Between the coarse calls the control thread may
+call `io.record(…)` (one backend call, `pa.open(input=True)`) and `io.play(…)` on a backend whose
+`pa.open` raises for that call (`with self.lock`, `go.set()`, `pa.open` raises, the lock is released
+by the exception); `close()` drains `_recordings` (one `file_obj.close()` each, the last one first)
+between its loop over `_threads` and `terminate()`; `terminate()` may raise.  The tie (`entry = "mix"`)
+runs such histories on the real code under the scheduler and compares step by step. -/
+
+/-- schedules of the mixed system, as lists of numbers (n+1 = the player whose thread object has
+index n: here no `pa.open` fails before a player is created, so player n) -/
+def mixRun (xc : XCfg) (script : List XCmd) (l : List Nat) : XState := (runSchedX xc (initX script) (mkSched l)).1
+
+/-- **C17.24 mix_refines** — every step of the mixed system is a step of the coarse system or leaves
+the coarse state alone, so the coarse state of ANY reachable state of the mixed system is reachable in
+the coarse system with the coarse calls of the script: every safety theorem above (`delivered_is_spec`,
+`terminate_once`, `closed_after`, `backend_protocol`, `lock_order`, …) holds with recordings, failing
+opens and a raising terminate in the history. -/
+theorem mix_refines {xc : XCfg} {script : List XCmd} {x : XState} (h : ReachX xc script x) :
+    Reach xc.cfg (projScript script) x.base ∧
+    (∀ (t : Tid) (x' : XState), stepX xc x t = some x' →
+      x'.base = x.base ∨ step xc.cfg x.base t = some x'.base) :=
+  ⟨mix_reach h, fun t x' hs => stepX_base xc x x' t hs⟩
+
+/-- **C17.24b mix_delivered** — delivery with both kinds of stream active: every player's device
+stream holds a prefix of `chunksSpec`, all of it once the player left its loop un-stopped. -/
+theorem mix_delivered {xc : XCfg} {script : List XCmd} {x : XState} (h : ReachX xc script x)
+    (k : Nat) (p : Player) (hp : x.base.players[k]? = some p) (hcs : 0 < p.cs) :
+    p.written <+: chunksSpec p.cs p.audio ∧
+    (afterLoop p.pc = true → p.halting = false → p.fail = false →
+      p.written = chunksSpec p.cs p.audio) :=
+  ⟨(delivered_is_spec (mix_reach h) k p hp hcs).1, (delivered_is_spec (mix_reach h) k p hp hcs).2.1⟩
+
+/-- **C17.25 mix_closed_after** — "afterwards every device stream is closed, the backend is terminated
+exactly once", with recordings AND player threads in the same history, whatever the schedule: once the
+backend has been terminated (only `close` does that, after its two loops) every player's stream is
+closed and its thread past all backend calls (`closedAfter`), EVERY recording stream's device stream
+was closed exactly once (`recsClosed`), `_threads` is empty, the backend was terminated exactly once —
+whether or not `terminate()` raised — and no backend call was refused. -/
+theorem mix_closed_after {xc : XCfg} {script : List XCmd} {x : XState} (h : ReachX xc script x)
+    (ht : 1 ≤ x.base.terminated) :
+    closedAfterX x = true ∧ x.base.terminated = 1 ∧ x.base.perr = false ∧
+    (∀ r ∈ x.recs, r.closes = 1) := by
+  have hr := mix_reach h
+  have hc := closedAfter_of_terminated hr ht
+  have hrc := recsClosed_of_terminated h ht
+  refine ⟨by unfold closedAfterX; rw [hc, hrc]; rfl, ?_, backend_protocol hr, ?_⟩
+  · have := terminate_once hr; omega
+  · unfold recsClosed at hrc
+    rw [List.all_eq_true] at hrc
+    intro r hr'; simpa using hrc r hr'
+
+/-- **C17.25b mix_recordings_invariant** — in every reachable state: a recording's device stream is
+closed at most once, and a recording is still listed (not closed) only while the backend is not
+terminated; the lock taken by a failing `play` is held only inside that call. -/
+theorem mix_recordings_invariant {xc : XCfg} {script : List XCmd} {x : XState}
+    (h : ReachX xc script x) :
+    (∀ r ∈ x.recs, r.closes ≤ 1) ∧ (lastActive x.recs = none ∨ x.base.terminated = 0) ∧
+    (x.shadow = true → x.xpc ≠ .idle) :=
+  ⟨(xi_reach h).le1, (xi_reach h).act, (xi_reach h).sh⟩
+
+/-- **C17.26 mix_shutdown** — close with both kinds active, in the words of the property: when the
+mixed script (containing a `close`) has been issued to its end and nobody can move, `close` has
+returned, every player's device stream is closed, every recording's device stream was closed exactly
+once, the backend was terminated exactly once and NO player thread is alive. -/
+theorem mix_shutdown {xc : XCfg} {script : List XCmd} {x : XState} (h : ReachX xc script x)
+    (ht : terminalX xc x = true) (hd : scriptDone x = true) (hc : Cmd.close ∈ projScript script) :
+    (∃ al n, Ev.closeOk al n ∈ x.base.log) ∧ closedAfterX x = true ∧ noneAlive x.base = true ∧
+    x.base.terminated = 1 := by
+  obtain ⟨hterm, hdone⟩ := terminal_of_terminalX h ht hd
+  obtain ⟨h1, _, h3, h4⟩ := after_done (mix_reach h) hterm hdone hc
+  exact ⟨h1, (mix_closed_after h (by omega)).1, h3, h4⟩
+
+/-- two players, a recording opened between the two `play` calls and one before, `wait=True` -/
+def mixXc : XCfg := ⟨⟨true, true, []⟩, false⟩
+def mixScript : List XCmd :=
+  [.ext (.record 2), .base (.play [101, 102, 103] 2), .ext (.record 1), .base (.play [201] 2), .base .close]
+def mixSched : List Nat :=
+  [0, 0,0,0,0,0,0, 0, 0,0,0,0,0, 0,0,0, 1,1,1,1,1,1,1,1,1,1, 0,0,0, 2,2,2,2,2,2,2,2, 0,0,0, 0,0, 0,0]
+
+/-- non-vacuity of `mix_shutdown` / `mix_closed_after`: a complete run; the recordings own device
+streams 0 and 2, the players 1 and 3; `close` closed stream 2 before stream 0 -/
+example : (runSchedX mixXc (initX mixScript) (mkSched mixSched)).2 = [] ∧
+    terminalX mixXc (mixRun mixXc mixScript mixSched) = true ∧
+    scriptDone (mixRun mixXc mixScript mixSched) = true ∧
+    (mixRun mixXc mixScript mixSched).recs.map (fun r => (r.six, r.closes)) = [(0, 1), (2, 1)] ∧
+    (mixRun mixXc mixScript mixSched).six = [1, 3] ∧
+    (mixRun mixXc mixScript mixSched).base.players.map (·.written) = [[[101, 102], [103, 0]], [[201, 0]]] ∧
+    (mixRun mixXc mixScript mixSched).base.terminated = 1 ∧
+    (mixRun mixXc mixScript (mixSched.take 41)).recs.map (·.closes) = [0, 1] := by decide
+
+/-- **C17.27 open_failure_leaves_no_trace** — `pa.open` raising inside `play` (the call is due, the
+manager lock free, the manager not finished): the control thread takes the lock, sets the new thread's
+`go`, `pa.open` raises, the lock is released by the exception — four steps after which the coarse state
+(players, `_threads`, locks, log) is exactly what it was: no thread was created or started, nothing was
+appended to `_threads`, the manager lock is free, only the thread-object count went up; while the lock
+was held, `thread_finished` of every player was blocked, as it is by the manager lock. -/
+theorem open_failure_leaves_no_trace (xc : XCfg) (x : XState) (t : Nat) (rest : List (Nat × XOp))
+    (hx : x.xpc = .idle) (htodo : x.todo = (t, .playFail) :: rest) (hdue : due x.base t = true)
+    (hfree : x.base.mlock = none) (hfin : x.base.finished = false) :
+    ∃ x1 x2 x3 x4, stepMainX xc x = some x1 ∧ stepMainX xc x1 = some x2 ∧ stepMainX xc x2 = some x3 ∧
+      stepMainX xc x3 = some x4 ∧
+      x4.base = x.base ∧ x4.shadow = false ∧ x4.xpc = .idle ∧ x4.todo = rest ∧ x4.recs = x.recs ∧
+      x4.ghosts = x.ghosts + 1 ∧ x4.xlog = x.xlog ++ [(t, .playOpenError)] ∧
+      (∀ y ∈ [x1, x2, x3], y.base = x.base ∧ y.shadow = true ∧
+        ∀ i p, x.base.players[i]? = some p → p.pc = .tfAcq → stepPlayerX xc y i = none) := by
+  refine ⟨{ x with shadow := true, xpc := .fGoSet }, { x with shadow := true, xpc := .fOpen },
+    { x with shadow := true, xpc := .fRel },
+    { x with xpc := .idle, shadow := false, ghosts := x.ghosts + 1, todo := rest,
+             xlog := x.xlog ++ [(t, .playOpenError)] }, ?_, ?_, ?_, ?_, rfl, rfl, rfl, rfl, rfl, rfl, rfl, ?_⟩
+  · simp [stepMainX, hx, htodo, hdue, hfree, hfin]
+  · simp [stepMainX]
+  · simp [stepMainX]
+  · simp [stepMainX, htodo]
+  · intro y hy
+    simp only [List.mem_cons, List.mem_nil_iff, or_false] at hy
+    rcases hy with rfl | rfl | rfl <;>
+      exact ⟨rfl, rfl, fun i p hp hpc => by simp [stepPlayerX, hp, hpc]⟩
+
+/-- non-vacuity: `play ; play (pa.open raises) ; play ; close` — the failing call is issued while the
+first player is at `thread_finished`; it blocks there until the lock is released; the third call's
+thread object has index 2, its device stream index 1 -/
+def failScript : List XCmd :=
+  [.base (.play [101] 2), .ext .playFail, .base (.play [201, 202] 2), .base .close]
+example : let x := mixRun mixXc failScript [0,0,0,0,0,0, 1,1,1,1,1, 0]
+    (x.shadow = true ∧ x.xpc = .fGoSet ∧ pcAt x.base 0 = some .tfAcq ∧
+      enabledX mixXc x (.player 0) = false ∧ enabled mixXc.cfg x.base (.player 0) = true) := by decide
+def failSched : List Nat :=
+  [0,0,0,0,0,0, 1,1,1,1,1, 0,0,0,0, 0,0,0,0,0, 0,0,0, 1,1,1, 0,0,0, 2,2,2,2,2,2,2,2, 0,0,0,0,0]
+example : let x := mixRun mixXc failScript failSched
+    (scriptDone x = true ∧ terminalX mixXc x = true ∧ x.ghosts = 1 ∧ x.tix = [0, 2] ∧ x.six = [0, 1] ∧
+      x.xlog = [(2, .playOpenError)] ∧ x.base.log = [.playOk 0, .playOk 1, .closeOk [false, false] 0] ∧
+      closedAfterX x = true) := by decide
+
+/-- **C17.28 raising_terminate_changes_nothing** — a backend whose `terminate()` raises: the call is
+made all the same, exactly once, after everything else was closed; the exception leaves `close()`
+through `with self.halting` (the lock is released).  No step of any thread depends on it: every
+schedule runs exactly as with a `terminate()` that returns — only the caller of that `close()` sees the
+backend's error instead of a return (`closeRaised`) — so after it every device stream is closed, the
+backend terminated exactly once, a second `close()` does nothing and `play` raises. -/
+theorem raising_terminate_changes_nothing (cfg : Cfg) (script : List XCmd) (sched : List Tid) :
+    runSchedX ⟨cfg, true⟩ (initX script) sched = runSchedX ⟨cfg, false⟩ (initX script) sched ∧
+    (1 ≤ (runSchedX ⟨cfg, true⟩ (initX script) sched).1.base.terminated →
+      closeRaised ⟨cfg, true⟩ (runSchedX ⟨cfg, true⟩ (initX script) sched).1 = true ∧
+      closedAfterX (runSchedX ⟨cfg, true⟩ (initX script) sched).1 = true ∧
+      (runSchedX ⟨cfg, true⟩ (initX script) sched).1.base.terminated = 1 ∧
+      (runSchedX ⟨cfg, true⟩ (initX script) sched).1.base.finished = true ∧
+      (runSchedX ⟨cfg, true⟩ (initX script) sched).1.base.hlock ≠ some .main ∨
+        closeBody (runSchedX ⟨cfg, true⟩ (initX script) sched).1.base.mpc = true) := by
+  refine ⟨runSchedX_termFails cfg true false sched _, fun ht => ?_⟩
+  have hr : ReachX ⟨cfg, true⟩ script (runSchedX ⟨cfg, true⟩ (initX script) sched).1 :=
+    reachX_runSchedX sched ReachX.init
+  obtain ⟨h1, h2, _⟩ := mix_closed_after hr ht
+  by_cases hcb : closeBody (runSchedX ⟨cfg, true⟩ (initX script) sched).1.base.mpc = true
+  · exact Or.inr hcb
+  · refine Or.inl ⟨by simp [closeRaised]; omega, h1, h2, ?_, ?_⟩
+    · have mi := mi_reach (mix_reach hr)
+      cases hf : (runSchedX ⟨cfg, true⟩ (initX script) sched).1.base.finished with
+      | true => rfl
+      | false => have := mi.fin0 hf; omega
+    · intro hh
+      have := ((lk_reach (mix_reach hr)).1 _ hh).2
+      exact hcb this
 
 /-! ### the deadlock of the code as it is (D10) -/
 
